@@ -6,8 +6,8 @@ CHECK = dict(
          'the real list.c; every transition = one list operation applied to the implementation and to an array model, '
          'followed by a full traversal comparison; a state is distinct when its raw image (list heads, stale tails, node '
          'links, iterator internals, model) differs',
-    bounds=dict(quick='node pools of 1..4 nodes (keys 1223, 221, 1111, 3211, 12, 1): complete reachable state space',
-                thorough='adds 5-node pools (12233, 32121): complete reachable state space'),
+    bounds=dict(quick='node pools of 1..5 nodes (keys 1223, 221, 1111, 3211, 12, 1, 12233, 32121, and four 4-node pools whose key differences - the comparator results - are multiples of 2^8, of 2^16, change sign when narrowed, or need 31 bits): complete reachable state space',
+                thorough='adds 6-node pools (122333, 321321): complete reachable state space'),
     assumptions=['scope: a node is never inserted while a member of a list; an iterator is used only until its list '
                  'is mutated by a non-iterator operation', 'one iterator per list'],
 )
@@ -21,3 +21,22 @@ CHECK.update(
                'foreign mutation). Universe bounded to 6 nodes / 2 lists / 1 iterator per list.',
     design_ref='DESIGN.md section 4, C09',
 )
+
+# build variants: the same enumeration on other builds of the librfn sources (conditional code such as __OPTIMIZE_SIZE__ /
+# __OPTIMIZE__ / __clang__, and compiler-dependent arithmetic, show only there); counted separately by the driver
+def _variants(parts, names):
+    out = []
+    for p in parts:
+        if p['name'] not in names:
+            continue
+        for tag, cc, flags, tiers in (('gcc -Os', 'gcc', ['-Os'], ('quick', 'thorough')), ('clang -O2', 'clang', [], ('thorough',))):
+            q = dict(p)
+            q['name'] = p['name'] + '_' + tag.split()[0] + tag.split()[1].strip('-')
+            q['variant'] = tag
+            q['cc'] = cc
+            q['cflags'] = list(p.get('cflags', [])) + flags
+            q['tiers'] = tiers
+            out.append(q)
+    return out
+CHECK['parts'] = CHECK['parts'] + _variants(CHECK['parts'], ['c09'])
+CHECK['bounds'] = dict((k, v + '; the whole enumeration repeated on a gcc -Os build' + (' and a clang -O2 build' if k == 'thorough' else '') + ' of the librfn sources (counted separately)') for k, v in CHECK['bounds'].items())
